@@ -120,6 +120,8 @@ func setupProfile(e *Env, o core.RunOpts) error {
 	switch o.Prop {
 	case "C01":
 		return setupOracle(e, o)
+	case "C03", "C05", "C10":
+		return setupTSS(e, o)
 	}
 	return fmt.Errorf("no profile for %s", o.Prop)
 }
@@ -167,5 +169,52 @@ func setupOracle(e *Env, o core.RunOpts) error {
 		e.MaxSteps = e.Ch.Range("cfg.steps", 40, 160)
 	}
 	e.DrainMax = int(params.ExpirationBlockCount) + 16
+	return nil
+}
+
+func setupTSS(e *Env, o core.RunOpts) error {
+	tokens := drawValTokens(e, 1, 4)
+	tp := drawTSSParams(e)
+	bp := drawBandtssParams(e)
+	e.Shared["tss.genesis.params"] = tp
+	cfg := world.Config{Seed: o.Seed, ChainID: "simband", ValTokens: tokens, NumUsers: 14, Replicas: 1, GenesisTime: baseTime}
+	faults := drawFaults(e, false)
+	// accounts are created by world.New; member pool must exist before genesis, so derive the same accounts here
+	var accs []*world.Account
+	for i := 0; i < cfg.NumUsers; i++ {
+		accs = append(accs, world.NewAccount(o.Seed, fmt.Sprintf("user%d", i)))
+	}
+	size := 1 + e.Ch.Intn("cfg.tss.groupsize", 8)
+	if o.Prop == "C03" && e.Ch.Bool("cfg.tss.biggroup", 80) {
+		size = 9 + e.Ch.Intn("cfg.tss.groupsize.big", 4)
+	}
+	thr := uint64(1 + e.Ch.Intn("cfg.tss.threshold", size))
+	pool := NewTSSPool(e, accs[:size])
+	drawMemberBehaviour(e, pool, int(tp.MaxDESize), o.Prop != "C03")
+	e.Desc("tss params: period=%d maxattempt=%d maxde=%d; group size=%d threshold=%d; fee=%s penalty=%s", tp.SigningPeriod, tp.MaxSigningAttempt, tp.MaxDESize, size, thr, bp.FeePerSigner, bp.InactivePenaltyDuration)
+	shadow := NewTSSShadow(pool)
+	e.Shared["tss.shadow"] = shadow
+	e.Shared["tss.pool"] = pool
+	cfg.GenesisMods = append(cfg.GenesisMods, govGenesis(4*time.Second), quietEconomy(),
+		tssGenesis(e, tssGenesisCfg{TSSParams: tp, BandtssParams: bp, GroupMembers: pool.Members, Threshold: thr, InitialDEs: e.Ch.Intn("cfg.tss.initde", int(tp.MaxDESize)+1)}))
+	w, err := world.New(e.Ch, e.Log, e.St, cfg, o.Scratch)
+	if err != nil {
+		return err
+	}
+	e.W = w
+	w.F = faults
+	// world accounts are the same keys; make pool point at the world's account objects
+	for i, m := range pool.Members {
+		m.Acc = w.Users[i]
+	}
+	e.Actors = append(e.Actors,
+		&TSSActor{Pool: pool, ByzP: e.Ch.Intn("cfg.tss.byz", 500), ReactP: 100 + e.Ch.Intn("cfg.tss.react", 400), OverDEP: e.Ch.Intn("cfg.tss.overde", 120)},
+		&SigRequester{Rate: 200 + e.Ch.Intn("cfg.sigreq.rate", 600), MaxOpen: 1 + e.Ch.Intn("cfg.sigreq.maxopen", 5), Senders: w.Users[size:], LimitW: []int{70, 10, 10, 10}, RollbackP: 80})
+	e.Monitors = append(e.Monitors, &C05{}, &C03{}, &C10{})
+	e.MaxSteps = e.Ch.Range("cfg.steps", 30, 90)
+	if o.Thorough {
+		e.MaxSteps = e.Ch.Range("cfg.steps", 40, 160)
+	}
+	e.DrainMax = int(tp.SigningPeriod*tp.MaxSigningAttempt) + 12
 	return nil
 }
